@@ -681,3 +681,10 @@ def evaluation_count_is_cumulative(ctx):
             ctx.check(rebinding_carries(f, st), f.qualname + '#counter', 'counter cell continues from self._fcalls[0]',
                       're-decorating the objective restarts the evaluation counter, so the evaluation limit no longer bounds the total', f, st)
     ctx.need(n >= 3, 'expected 3 counter rebindings')
+
+
+@rule('C05.m', min_instances=1)
+def limits_as_a_termination_condition(ctx):
+    """the limits can also be given as the termination condition EvaluationLimits(generations, evaluations): it answers "satisfied" exactly when evaluations >= the evaluation limit or generations >= the generation limit, None meaning no limit and 0 meaning 0 (truth-table equivalence with the documented predicate; shared with C10.c) - a limit of 0 treated as "none" lets the solver iterate on after the initial evaluation although the condition holds"""
+    from .c10 import primitive_predicates
+    primitive_predicates(ctx, only=('EvaluationLimits',))
